@@ -22,6 +22,13 @@ UNITS_OPTIONAL = False         # the Lean/unit half (c01_units.py) is merged: it
 
 WORKERS_QUICK, WORKERS_THOROUGH = 6, 12
 MAX_REPORTS = 10               # distinct VIOLATION lines per run (each with a shrunk replay); the rest is counted
+# /repo's default configuration (pool allocator: lib/util/src/mempool.c compiled, NO_CUSTOM_ALLOC not defined; the xattr writer's
+# kv_block_tree, the dir reader cache and the visited sets of the tree readers are rbtrees on it): every POOL_EVERY-th generated
+# case (by index: no rng draw) is packed and read back by the gensquashfs/rdsquashfs of that configuration instead of the
+# plain-malloc one, and the cases with >= 511 xattr sets run a second time against it; same oracle, same five read-back paths
+POOL_EVERY, POOL_PHASE = 5, 3
+POOL_FLOOR_QUICK, POOL_FLOOR_THOROUGH = 45, 110          # cases evaluated against the pool configuration
+POOL_XATTR_FLOOR = 4                                     # ... of them `xattr-sets-<n>` with n >= 511 that packed and read back
 
 # known findings of /repo this check can run into (keys are what ctx.violation receives)
 K_D9 = "C01e:D9:xattr-sets-multiple-of-512-overflow-write_id_table"
@@ -226,6 +233,11 @@ def run_case(env, case, wd, paths="abcde", limits=None):
     t0 = time.time()
     st = {}
     res = {"name": case.get("name"), "idx": case.get("idx"), "mism": [], "stats": st, "cmd": "", "rc": None}
+    if case.get("configuration") == "pool":
+        if getattr(env, "pool_env", None) is None:
+            raise vlib.CheckFailure("case %s asks for the pool configuration, which was not built" % case.get("name"))
+        env = env.pool_env                       # gensquashfs/rdsquashfs of /repo's default configuration; everything else as below
+        res["configuration"] = "pool"
     status, exp = G.expected(case)
     res["expect"] = status if status == "ok" else "refuse:" + exp
     wdb = os.fsencode(str(wd))
@@ -504,6 +516,34 @@ def build(ctx):
     return gen, rd, unz
 
 
+def build_pool_env(ctx, env):
+    """the same two tools in /repo's default configuration (ASan+UBSan as well); hung below the plain Env"""
+    gen = ctx.build_tool("gensquashfs", tag="c01pool", custom_alloc=True)
+    rd = ctx.build_tool("rdsquashfs", tag="c01pool", custom_alloc=True)
+    env.pool_env = R.Env(ctx, gen, rd, env.unz, env.caps)
+    env.pool_env.thorough = env.thorough
+    return env.pool_env
+
+
+def mark_pool_cases(cases):
+    """chooses the pool-configuration share by case index (the random stream of the generators is untouched)"""
+    extra = []
+    for c in cases:
+        if c.get("kind") == "corpus" or c.get("configuration"):
+            continue
+        m = c.get("kind") == "xattrsets" and c.get("name", "").startswith("xattr-sets-") and c["name"][11:].isdigit() and int(c["name"][11:]) >= 511
+        if c["idx"] % POOL_EVERY == POOL_PHASE and c.get("kind") not in ("bigdata", "bigsparse", "bigdelta", "sparse4g") \
+                and not c.get("name", "").startswith("sparse-4GiB"):
+            c["configuration"] = "pool"
+        elif m:
+            d = copy.deepcopy(c)
+            d["configuration"] = "pool"
+            d["name"] = c["name"] + "@pool"
+            d["idx"] = 200000 + c["idx"]
+            extra.append(d)
+    return cases + extra
+
+
 def case_hash(case):
     c = {k: v for k, v in case.items() if k not in ("idx",)}
     return vlib.sha(json.dumps(c, sort_keys=True, default=str))[:10]
@@ -541,7 +581,11 @@ def run(ctx):
     caps = probe_caps(ctx)
     ctx.log("built gensquashfs, rdsquashfs (ASan+UBSan), unz; sandbox capabilities: " + ", ".join(k for k, v in sorted(caps.items()) if v is True))
     env = R.Env(ctx, gen, rd, unz, caps)
-    cases = corpus_cases(ctx) + plan(ctx)
+    t_pool = time.time()
+    build_pool_env(ctx, env)
+    stats["pool_configuration_build_seconds"] = round(time.time() - t_pool, 1)
+    ctx.log("built gensquashfs, rdsquashfs in /repo's default configuration (pool allocator) in %.1f s" % (time.time() - t_pool))
+    cases = mark_pool_cases(corpus_cases(ctx) + plan(ctx))
     # the unit-level tie (real library functions vs the Lean models) runs beside the tool-level cases
     unit_box = {"counts": (0, 0, 0), "error": None}
     def unit_job():
@@ -638,9 +682,23 @@ def summarize(ctx, env, results, skipped, caps, stats):
     packed = refused = 0
     samples = []
     unpack_flags = {}
+    pool = {"cases": 0, "images_packed_and_read_back": 0, "refused_as_expected": 0, "xattr_sets_cases_read_back": [], "kinds": {},
+            "nodes_a": 0, "xattr_dumps_c": 0, "unpacked_nodes_e": 0, "mismatches": 0}
     for case, res in results:
         bump("kinds", case.get("kind", "?"))
         bump("input_modes", case["mode"])
+        if case.get("configuration") == "pool" and res.get("configuration") == "pool":
+            pool["cases"] += 1
+            pool["kinds"][case.get("kind", "?")] = pool["kinds"].get(case.get("kind", "?"), 0) + 1
+            pool["mismatches"] += len(res["mism"])
+            pst = res.get("stats", {})
+            if res["rc"] == 0 and res.get("exp_nodes"):
+                pool["images_packed_and_read_back"] += 1
+                if case.get("kind") == "xattrsets" and not res["mism"]:
+                    pool["xattr_sets_cases_read_back"].append(case.get("name"))
+            if pst.get("refused"):
+                pool["refused_as_expected"] += 1
+            pool["nodes_a"] += pst.get("a_nodes", 0); pool["xattr_dumps_c"] += pst.get("c_xattr", 0); pool["unpacked_nodes_e"] += pst.get("e_nodes", 0)
         o = case.get("opts", {})
         bump("compressor_x_blocksize", "%s/%d" % (o.get("comp", "xz"), o.get("bs") or 131072))
         for k, v in o.items():
@@ -748,6 +806,16 @@ def summarize(ctx, env, results, skipped, caps, stats):
     if short:
         ctx.violation("floor:" + vlib.sha(";".join(sorted(short)))[:10], "the run compared less than the tool-level tie requires: " + "; ".join(short)[:900],
                       {"floors": floors, "counts": got_counts}, found_input=False)
+    # ---- share of the run against /repo's default configuration
+    pool_floor = POOL_FLOOR_QUICK if ctx.quick() else POOL_FLOOR_THOROUGH
+    many_x = [n for n in pool["xattr_sets_cases_read_back"] if n.endswith("@pool")]
+    ctx.cov["pool_configuration_runs"] = pool["cases"]
+    ctx.cov["pool_configuration"] = dict(pool, floor_cases=pool_floor, floor_xattr_sets_cases_of_511_and_more=POOL_XATTR_FLOOR,
+                                         rule="case index %% %d == %d packed and read back by the pool-configured tools instead of the plain-malloc ones; "
+                                              "xattr-sets-<n>, n >= 511, additionally (`@pool`)" % (POOL_EVERY, POOL_PHASE))
+    if pool["cases"] < pool_floor or (len(many_x) < POOL_XATTR_FLOOR and not ctx.violations):
+        raise vlib.CheckFailure("too few cases ran against /repo's default configuration (pool allocator): %d cases (floor %d), %d xattr-sets cases "
+                                "of >= 511 sets read back without a mismatch (floor %d)" % (pool["cases"], pool_floor, len(many_x), POOL_XATTR_FLOOR))
     uc = stats.pop("_unit_counts", [0, 0, 0])
     ctx.cov.update(stats)
     ctx.cov["floors"] = floors
@@ -827,6 +895,9 @@ def replay(ctx, path):
     gen, rd, unz = build(ctx)
     env = R.Env(ctx, gen, rd, unz, probe_caps(ctx))
     env.thorough = True
+    if case.get("configuration") == "pool":
+        build_pool_env(ctx, env)
+        print("configuration: /repo's default (pool allocator)")
     case = dict(case); case.setdefault("idx", 0)
     res = run_case(env, case, ctx.scratch / "replay", limits={"s": 2000, "l": 500, "x": 2000, "c": 2000})
     print("case   :", case.get("name"), "(%s input)" % case["mode"])
